@@ -307,7 +307,7 @@ def pair_queries(res, comp, b, amb, queries):
         tb = nm.N.parser.parse('parser { %s }' % q['B'], start='start')
         A = b.da(b.lang_seq(refre.find(ta, 'parser_decl').children), src=q['A'])
         B = b.da(b.lang_seq(refre.find(tb, 'parser_decl').children), src=q['B'])
-        lookahead_query(res, comp, amb, A, B, 'lookahead', q['A'], q['B'], prefix, shape)
+        lookahead_query(res, comp, amb, A, B, 'lookahead', q.get('Adesc') or q['A'], q['B'], prefix, shape)
 
 
 def items_for(tier):
